@@ -5,7 +5,7 @@ Everything is taken from the AST of the source text.  Each function is checked t
 the hand model (Model/NumFmt.lean) assumes; anything else raises ExtractError (=> stub => obligations open).
 All texts are emitted as `List Char` literals (the model works on `List Char` so that `decide +kernel` can run it).
 """
-import ast, re
+import ast, copy, re
 from .common import *
 
 REL = 'chempy/printing/numbers.py'
@@ -56,48 +56,199 @@ def _body(f):
     return b
 
 
-def _ones_test(test, what):
-    """`significand in ("1", "1.0")` -> ['1', '1.0']"""
-    if not (isinstance(test, ast.Compare) and _is_name(test.left, 'significand') and len(test.ops) == 1
-            and isinstance(test.ops[0], ast.In) and isinstance(test.comparators[0], (ast.Tuple, ast.List))):
-        raise ExtractError('%s: test is no longer `significand in (...)`' % what)
-    return [_const_str(e, what) for e in test.comparators[0].elts]
+# ---------------------------------------------------------------------------------------------------------------
+# A small symbolic executor for loop-free Python functions.  A function body is turned into a decision tree
+#     ('if', condition, tree_if_true, tree_if_false) | ('ret', expression)
+# whose expressions mention only the function's parameters (renamed by POSITION to canonical names) and free names:
+# local variables are substituted forward, tuple-unpacking becomes indexing, early returns / guard clauses / inverted
+# tests (`not`, `not in`, `is not`) are normalised, and calls to other module-level functions of the same file are
+# inlined (except the functions the hand model mirrors by name, which stay opaque).  Facts are then read off the tree
+# per scenario, so they do not depend on local names, on helper extraction or on the order of if/else branches.
+KEEP_OPAQUE = {'_number_to_X', '_float_str_w_uncert', '_latex_pow_10', '_unicode_pow_10', '_html_pow_10', 'roman', '_mag'}
 
 
-def _assign_const_or_sig_plus_const(stmts, target, what):
-    """[`target = "lit"`] -> (False, lit);  [`target = significand + "lit"`] -> (True, lit)"""
-    if not (len(stmts) == 1 and isinstance(stmts[0], ast.Assign) and len(stmts[0].targets) == 1
-            and _is_name(stmts[0].targets[0], target)):
-        raise ExtractError('%s: expected a single assignment to %s' % (what, target))
-    v = stmts[0].value
-    if isinstance(v, ast.Constant):
-        return False, _const_str(v, what)
-    if isinstance(v, ast.BinOp) and isinstance(v.op, ast.Add) and _is_name(v.left, 'significand'):
-        return True, _const_str(v.right, what)
-    raise ExtractError('%s: unexpected right-hand side' % what)
+class _Subst(ast.NodeTransformer):
+    def __init__(self, env):
+        self.env = env
+
+    def visit_Name(self, node):
+        if isinstance(node.ctx, ast.Load) and node.id in self.env:
+            return copy.deepcopy(self.env[node.id])
+        return node
 
 
-def _is_str_int_mantissa(node):
-    """str(int(mantissa))"""
-    return (isinstance(node, ast.Call) and _is_name(node.func, 'str') and len(node.args) == 1 and not node.keywords
-            and isinstance(node.args[0], ast.Call) and _is_name(node.args[0].func, 'int')
-            and len(node.args[0].args) == 1 and not node.args[0].keywords and _is_name(node.args[0].args[0], 'mantissa'))
+def _subst(expr, env):
+    return _Subst(env).visit(copy.deepcopy(expr))
 
 
-def _pow10(tree, name, var):
-    """common shape:  if significand in ONES: var = A  else: var = significand + B ;  return <expr>"""
-    f = find_def(tree, name)
-    if [a.arg for a in f.args.args] != ['significand', 'mantissa']:
-        raise ExtractError('%s: parameters changed' % name)
-    b = _body(f)
-    if not (len(b) == 2 and isinstance(b[0], ast.If) and isinstance(b[1], ast.Return)):
-        raise ExtractError('%s: body is no longer if/else + return' % name)
-    ones = _ones_test(b[0].test, name)
-    s1, a = _assign_const_or_sig_plus_const(b[0].body, var, name)
-    s2, c = _assign_const_or_sig_plus_const(b[0].orelse, var, name)
-    if s1 or not s2:
-        raise ExtractError('%s: branches are no longer  %s = "..."  /  %s = significand + "..."' % (name, var, var))
-    return ones, a, c, b[1].value
+def _norm_cond(c):
+    """-> (positive condition, negated?)"""
+    neg = False
+    while True:
+        if isinstance(c, ast.UnaryOp) and isinstance(c.op, ast.Not):
+            c, neg = c.operand, not neg
+        elif isinstance(c, ast.Compare) and len(c.ops) == 1 and isinstance(c.ops[0], ast.NotIn):
+            c, neg = ast.Compare(c.left, [ast.In()], c.comparators), not neg
+        elif isinstance(c, ast.Compare) and len(c.ops) == 1 and isinstance(c.ops[0], ast.IsNot):
+            c, neg = ast.Compare(c.left, [ast.Is()], c.comparators), not neg
+        else:
+            return c, neg
+
+
+def _fold(c):
+    """decide conditions that are constant after substitution (isinstance(5, int), 5 is None)"""
+    if isinstance(c, ast.Call) and _is_name(c.func, 'isinstance') and len(c.args) == 2 and isinstance(c.args[0], ast.Constant) \
+            and _is_name(c.args[1], 'int'):
+        return type(c.args[0].value) is int
+    if isinstance(c, ast.Compare) and len(c.ops) == 1 and isinstance(c.ops[0], ast.Is) and isinstance(c.left, ast.Constant) \
+            and isinstance(c.comparators[0], ast.Constant):
+        return c.left.value is c.comparators[0].value
+    return None
+
+
+def _map_leaves(tree, f):
+    if tree[0] == 'if':
+        return ('if', tree[1], _map_leaves(tree[2], f), _map_leaves(tree[3], f))
+    return f(tree[1])
+
+
+def _helper_call(value, funcs):
+    return (isinstance(value, ast.Call) and isinstance(value.func, ast.Name) and value.func.id in funcs
+            and value.func.id not in KEEP_OPAQUE and not value.keywords and not any(isinstance(a, ast.Starred) for a in value.args))
+
+
+def _inline(fdef, args, funcs, depth):
+    names = [a.arg for a in fdef.args.args]
+    if fdef.args.vararg or fdef.args.kwarg or fdef.args.kwonlyargs or len(args) > len(names):
+        raise ExtractError('%s: cannot inline (signature)' % fdef.name)
+    env = dict(zip(names, args))
+    nd = len(fdef.args.defaults)
+    for n, d in zip(names[len(names) - nd:], fdef.args.defaults):
+        env.setdefault(n, d)
+    if len(env) != len(names):
+        raise ExtractError('%s: cannot inline (missing argument)' % fdef.name)
+    return _symexec(_body(fdef), env, funcs, depth + 1, fdef.name)
+
+
+def _symexec(stmts, env, funcs, depth, what):
+    if depth > 6:
+        raise ExtractError('%s: helper nesting too deep' % what)
+    if not stmts:
+        return ('ret', ast.Constant(None))
+    st, rest = stmts[0], stmts[1:]
+    if isinstance(st, ast.Expr) and isinstance(st.value, ast.Constant):
+        return _symexec(rest, env, funcs, depth, what)
+    if isinstance(st, ast.Assign) and len(st.targets) == 1 and isinstance(st.targets[0], ast.Name):
+        t = st.targets[0].id
+        if _helper_call(st.value, funcs):
+            sub = _inline(funcs[st.value.func.id], [_subst(a, env) for a in st.value.args], funcs, depth)
+            return _map_leaves(sub, lambda e: _symexec(rest, dict(env, **{t: e}), funcs, depth, what))
+        return _symexec(rest, dict(env, **{t: _subst(st.value, env)}), funcs, depth, what)
+    if isinstance(st, ast.Assign) and len(st.targets) == 1 and isinstance(st.targets[0], ast.Tuple) \
+            and all(isinstance(e, ast.Name) for e in st.targets[0].elts):
+        v = _subst(st.value, env)
+        env2 = dict(env)
+        for i, e in enumerate(st.targets[0].elts):
+            env2[e.id] = ast.Subscript(copy.deepcopy(v), ast.Constant(i), ast.Load())
+        return _symexec(rest, env2, funcs, depth, what)
+    if isinstance(st, ast.AugAssign) and isinstance(st.target, ast.Name):
+        t = st.target.id
+        cur = env.get(t, ast.Name(t, ast.Load()))
+        return _symexec(rest, dict(env, **{t: ast.BinOp(copy.deepcopy(cur), st.op, _subst(st.value, env))}), funcs, depth, what)
+    if isinstance(st, ast.If):
+        c, neg = _norm_cond(_subst(st.test, env))
+        body, orelse = (st.orelse, st.body) if neg else (st.body, st.orelse)
+        k = _fold(c)
+        if k is True:
+            return _symexec(list(body) + rest, env, funcs, depth, what)
+        if k is False:
+            return _symexec(list(orelse) + rest, env, funcs, depth, what)
+        return ('if', c, _symexec(list(body) + rest, env, funcs, depth, what), _symexec(list(orelse) + rest, env, funcs, depth, what))
+    if isinstance(st, ast.Return):
+        if st.value is None:
+            return ('ret', ast.Constant(None))
+        if _helper_call(st.value, funcs):
+            return _inline(funcs[st.value.func.id], [_subst(a, env) for a in st.value.args], funcs, depth)
+        return ('ret', _subst(st.value, env))
+    if isinstance(st, ast.Pass):
+        return _symexec(rest, env, funcs, depth, what)
+    raise ExtractError('%s: statement outside the loop-free subset: %s' % (what, type(st).__name__))
+
+
+def _tree_of(tree, name, canon):
+    """decision tree of module-level function `name`, parameters renamed by position to `canon`"""
+    funcs = {n.name: n for n in tree.body if isinstance(n, ast.FunctionDef)}
+    if name not in funcs:
+        raise ExtractError('no def %s' % name)
+    f = funcs[name]
+    params = [a.arg for a in f.args.args]
+    if len(params) != len(canon) or f.args.vararg or f.args.kwarg or f.args.kwonlyargs:
+        raise ExtractError('%s: signature changed' % name)
+    env = {p: ast.Name(c, ast.Load()) for p, c in zip(params, canon)}
+    return f, _symexec(_body(f), env, funcs, 0, name)
+
+
+def _walk(tree, decide, what):
+    while tree[0] == 'if':
+        d = decide(tree[1])
+        if d is None:
+            raise ExtractError('%s: unexpected condition `%s`' % (what, ast.unparse(tree[1])))
+        tree = tree[2] if d else tree[3]
+    return tree[1]
+
+
+def _unify(pat, act, binds):
+    """structural match of two expressions; Names `_P_xxx` in the pattern are placeholders bound in `binds`"""
+    if isinstance(pat, ast.Name) and pat.id.startswith('_P_'):
+        if pat.id in binds:
+            return ast.dump(binds[pat.id]) == ast.dump(act)
+        binds[pat.id] = act
+        return True
+    if type(pat) is not type(act):
+        return False
+    if isinstance(pat, ast.AST):
+        for f in pat._fields:
+            if f in ('ctx', 'kind', 'type_comment'):
+                continue
+            if not _unify(getattr(pat, f, None), getattr(act, f, None), binds):
+                return False
+        return True
+    if isinstance(pat, list):
+        return len(pat) == len(act) and all(_unify(x, y, binds) for x, y in zip(pat, act))
+    return pat == act
+
+
+def _match(template, expr, what):
+    binds = {}
+    if not _unify(ast.parse(template, mode='eval').body, expr, binds):
+        raise ExtractError('%s: `%s` is not of the form `%s`' % (what, ast.unparse(expr), template))
+    return binds
+
+
+def _int_const(node, what):
+    if isinstance(node, ast.Constant) and type(node.value) is int and node.value >= 0:
+        return node.value
+    raise ExtractError('%s: expected a non-negative int literal, got `%s`' % (what, ast.unparse(node)))
+
+
+def _pow10(tree, name, tmpl_one, tmpl_sep):
+    """`_X_pow_10`: if <significand> in ONES: <tmpl_one> else: <tmpl_sep>   (any local names, either branch order)"""
+    f, t = _tree_of(tree, name, ['significand', 'mantissa'])
+    ones = []
+
+    def decide(want):
+        def d(c):
+            if isinstance(c, ast.Compare) and len(c.ops) == 1 and isinstance(c.ops[0], ast.In) and _is_name(c.left, 'significand') \
+                    and isinstance(c.comparators[0], (ast.Tuple, ast.List, ast.Set)):
+                ones[:] = [_const_str(e, name) for e in c.comparators[0].elts]
+                return want
+            return None
+        return d
+    b1 = _match(tmpl_one, _walk(t, decide(True), name), name)
+    b2 = _match(tmpl_sep, _walk(t, decide(False), name), name)
+    if not ones:
+        raise ExtractError('%s: no test `significand in (...)`' % name)
+    return ones, {k: _const_str(v, name) for k, v in b1.items()}, {k: _const_str(v, name) for k, v in b2.items()}
 
 
 def _split_percent_s(t, what):
@@ -107,27 +258,40 @@ def _split_percent_s(t, what):
     return t[:i], t[i + 2:]
 
 
+def _roman_tables(f):
+    """the two sequences the loop `for a, b in zip(X, Y)` of roman runs over, whatever the local names"""
+    loops = [n for n in ast.walk(f) if isinstance(n, ast.For)]
+    if len(loops) != 1:
+        raise ExtractError('roman: expected exactly one loop')
+    it = loops[0].iter
+    if not (isinstance(it, ast.Call) and _is_name(it.func, 'zip') and len(it.args) == 2 and not it.keywords):
+        raise ExtractError('roman: the loop no longer iterates over zip(tokens, values)')
+    assigned = {}
+    for st in _body(f):
+        if isinstance(st, ast.Assign) and len(st.targets) == 1 and isinstance(st.targets[0], ast.Name):
+            assigned.setdefault(st.targets[0].id, []).append(st.value)
+
+    def resolve(e):
+        if isinstance(e, ast.Name):
+            if len(assigned.get(e.id, [])) != 1:
+                raise ExtractError('roman: %s is not assigned exactly once' % e.id)
+            return assigned[e.id][0]
+        return e
+    tv, vv = resolve(it.args[0]), resolve(it.args[1])
+    if not (isinstance(tv, ast.Call) and isinstance(tv.func, ast.Attribute) and tv.func.attr == 'split' and not tv.args and not tv.keywords):
+        raise ExtractError('roman: tokens is no longer "<literal>".split()')
+    toks = _const_str(tv.func.value, 'roman tokens').split()
+    if not (isinstance(vv, (ast.Tuple, ast.List)) and all(isinstance(e, ast.Constant) and type(e.value) is int for e in vv.elts)):
+        raise ExtractError('roman: values is not a tuple of int literals')
+    return toks, [e.value for e in vv.elts]
+
+
 def generate(repo):
     src, tree = parse(repo, REL)
     out = [HEADER % REL, 'namespace ChemModel.Gen.PrintingNumbers\n']
 
     # ---- roman ------------------------------------------------------------------------
-    f = find_def(tree, 'roman')
-    toks = vals = None
-    for st in _body(f):
-        if isinstance(st, ast.Assign) and len(st.targets) == 1 and _is_name(st.targets[0], 'tokens'):
-            v = st.value
-            if not (isinstance(v, ast.Call) and isinstance(v.func, ast.Attribute) and v.func.attr == 'split'
-                    and not v.args and not v.keywords):
-                raise ExtractError('roman: tokens is no longer "<literal>".split()')
-            toks = _const_str(v.func.value, 'roman tokens').split()
-        if isinstance(st, ast.Assign) and len(st.targets) == 1 and _is_name(st.targets[0], 'values'):
-            v = st.value
-            if not (isinstance(v, ast.Tuple) and all(isinstance(e, ast.Constant) and type(e.value) is int for e in v.elts)):
-                raise ExtractError('roman: values is not a tuple of int literals')
-            vals = [e.value for e in v.elts]
-    if toks is None or vals is None:
-        raise ExtractError('roman: tokens/values not found')
+    toks, vals = _roman_tables(find_def(tree, 'roman'))
     if any(v < 0 for v in vals):
         raise ExtractError('roman: negative value')
     out.append('/-- `tokens` and `values` of `roman` (zipped by the code: the shorter list decides) -/')
@@ -135,11 +299,9 @@ def generate(repo):
     out.append('def romanValues : List Nat := %s\n' % vals)
 
     # ---- _latex_pow_10 ----------------------------------------------------------------
-    ones, a, c, ret = _pow10(tree, '_latex_pow_10', 'fmt')
-    if not (isinstance(ret, ast.BinOp) and isinstance(ret.op, ast.Mod) and _is_name(ret.left, 'fmt') and _is_str_int_mantissa(ret.right)):
-        raise ExtractError('_latex_pow_10: return is no longer fmt % str(int(mantissa))')
-    a1, a2 = _split_percent_s(a, '_latex_pow_10')
-    c1, c2 = _split_percent_s(c, '_latex_pow_10')
+    ones, b1, b2 = _pow10(tree, '_latex_pow_10', '_P_a % str(int(mantissa))', '(significand + _P_c) % str(int(mantissa))')
+    a1, a2 = _split_percent_s(b1['_P_a'], '_latex_pow_10')
+    c1, c2 = _split_percent_s(b2['_P_c'], '_latex_pow_10')
     out.append('/-- `_latex_pow_10`: significands printed as a bare power; templates split at their `%s` -/')
     out.append('def latexOnes : List (List Char) := %s' % lean_chars_list(ones))
     out.append('def latexOnePre : List Char := %s' % lean_chars(a1))
@@ -148,90 +310,94 @@ def generate(repo):
     out.append('def latexSepPost : List Char := %s\n' % lean_chars(c2))
 
     # ---- _unicode_pow_10 --------------------------------------------------------------
-    ones, a, c, ret = _pow10(tree, '_unicode_pow_10', 'result')
-    want = 'result+"".join(map(_unicode_sup.get,str(int(mantissa))))'
-    got = ''.join(seg(src, ret).split()).replace('u"', '"').replace("u'", "'").replace("'", '"')
-    if got != want:
-        raise ExtractError('_unicode_pow_10: return is no longer %s' % want)
+    ones, b1, b2 = _pow10(tree, '_unicode_pow_10', '_P_a + "".join(map(_unicode_sup.get, str(int(mantissa))))',
+                          '(significand + _P_c) + "".join(map(_unicode_sup.get, str(int(mantissa))))')
     out.append('/-- `_unicode_pow_10` -/')
     out.append('def unicodeOnes : List (List Char) := %s' % lean_chars_list(ones))
-    out.append('def unicodeOne : List Char := %s' % lean_chars(a))
-    out.append('def unicodeSep : List Char := %s\n' % lean_chars(c))
+    out.append('def unicodeOne : List Char := %s' % lean_chars(b1['_P_a']))
+    out.append('def unicodeSep : List Char := %s\n' % lean_chars(b2['_P_c']))
 
     # ---- _html_pow_10 -----------------------------------------------------------------
-    ones, a, c, ret = _pow10(tree, '_html_pow_10', 'result')
-    if not (isinstance(ret, ast.BinOp) and isinstance(ret.op, ast.Add) and isinstance(ret.left, ast.BinOp)
-            and isinstance(ret.left.op, ast.Add) and _is_name(ret.left.left, 'result') and _is_str_int_mantissa(ret.left.right)):
-        raise ExtractError('_html_pow_10: return is no longer result + str(int(mantissa)) + "..."')
-    close = _const_str(ret.right, '_html_pow_10')
+    ones, b1, b2 = _pow10(tree, '_html_pow_10', '(_P_a + str(int(mantissa))) + _P_z', '((significand + _P_c) + str(int(mantissa))) + _P_z')
+    if b1['_P_z'] != b2['_P_z']:
+        raise ExtractError('_html_pow_10: the two branches close differently')
     out.append('/-- `_html_pow_10` -/')
     out.append('def htmlOnes : List (List Char) := %s' % lean_chars_list(ones))
-    out.append('def htmlOne : List Char := %s' % lean_chars(a))
-    out.append('def htmlSep : List Char := %s' % lean_chars(c))
-    out.append('def htmlClose : List Char := %s\n' % lean_chars(close))
+    out.append('def htmlOne : List Char := %s' % lean_chars(b1['_P_a']))
+    out.append('def htmlSep : List Char := %s' % lean_chars(b2['_P_c']))
+    out.append('def htmlClose : List Char := %s\n' % lean_chars(b1['_P_z']))
 
-    # ---- _number_to_X: default precisions, default space ------------------------------
-    f = find_def(tree, '_number_to_X')
-    names = [a.arg for a in f.args.args]
-    if names != ['number', 'uncertainty', 'unit', 'fmt', 'unit_fmt', 'fmt_pow_10', 'space'] or len(f.args.defaults) != 1:
-        raise ExtractError('_number_to_X: signature changed')
+    # ---- _number_to_X: every path the hand model mirrors, read off the decision tree -----------------
+    CANON = ['number', 'uncertainty', 'unit', 'fmt', 'unit_fmt', 'fmt_pow_10', 'space']
+    f, t = _tree_of(tree, '_number_to_X', CANON)
+    if len(f.args.defaults) != 1:
+        raise ExtractError('_number_to_X: defaults changed')
     space = _const_str(f.args.defaults[0], '_number_to_X space default')
-    top_if = [st for st in f.body if isinstance(st, ast.If) and ''.join(seg(src, st.test).split()) == 'uncertaintyisNone']
-    if len(top_if) != 1:
-        raise ExtractError('_number_to_X: `if uncertainty is None:` not found exactly once at top level')
+    U0 = '(uncertainty or getattr(number, "uncertainty", None))'
+    UNIT = '(unit or unit_of(number))'
 
-    def default_fmt(stmts, what):
-        for st in stmts:
-            if isinstance(st, ast.If) and ''.join(seg(src, st.test).split()) == 'fmtisNone':
-                if (len(st.body) == 1 and isinstance(st.body[0], ast.Assign) and _is_name(st.body[0].targets[0], 'fmt')
-                        and isinstance(st.body[0].value, ast.Constant) and type(st.body[0].value.value) is int
-                        and st.body[0].value.value >= 0):
-                    return st.body[0].value.value
-        raise ExtractError('_number_to_X: default fmt (%s) not found' % what)
+    def scenario(unit_one, unc_none, fmt_none, has_e):
+        def d(c):
+            if isinstance(c, ast.Compare) and len(c.ops) == 1 and isinstance(c.ops[0], ast.Is):
+                left, right = c.left, c.comparators[0]
+                if isinstance(right, ast.Constant) and right.value == 1 and type(right.value) is int:
+                    return unit_one
+                if isinstance(right, ast.Constant) and right.value is None:
+                    if _is_name(left, 'fmt'):
+                        return fmt_none
+                    if ast.dump(left) == ast.dump(ast.parse(U0, mode='eval').body):
+                        return unc_none
+                    if isinstance(left, ast.Call) and _is_name(left.func, 'to_unitless'):
+                        return False          # a converted magnitude is never None (only reached on the path where it was not None)
+            if isinstance(c, ast.Call) and _is_name(c.func, 'isinstance') and len(c.args) == 2 and _is_name(c.args[0], 'fmt') \
+                    and _is_name(c.args[1], 'int'):
+                return True
+            if isinstance(c, ast.Compare) and len(c.ops) == 1 and isinstance(c.ops[0], ast.In) and isinstance(c.left, ast.Constant) \
+                    and c.left.value == 'e':
+                return has_e
+            return None
+        return _walk(t, d, '_number_to_X')
 
-    def fmt_call(stmts, what, want):
-        for st in stmts:
-            if isinstance(st, ast.If) and ''.join(seg(src, st.test).split()) == 'isinstance(fmt,int)':
-                got = ''.join(seg(src, st.body[0]).split()).replace("'", '"')
-                if len(st.body) == 1 and got == want:
-                    return
-                raise ExtractError('_number_to_X: %s is %s, expected %s' % (what, got, want))
-        raise ExtractError('_number_to_X: isinstance(fmt, int) branch (%s) not found' % what)
-
-    p_plain = default_fmt(top_if[0].body, 'without uncertainty')
-    p_unc = default_fmt(top_if[0].orelse, 'with uncertainty')
-    fmt_call(top_if[0].body, 'formatting without uncertainty', 'flt=("%%.%dg"%fmt)%mag')
-    fmt_call(top_if[0].orelse, 'formatting with uncertainty', 'flt=_float_str_w_uncert(mag,uncertainty,fmt)')
-    tail = f.body[-1]
-    want_tail = ('if"e"inflt:significand,mantissa=flt.split("e")returnfmt_pow_10(significand,mantissa)+unit_str'
-                 'else:returnflt+unit_str')
-    if ''.join(seg(src, tail).split()).replace("'", '"') != want_tail:
-        raise ExtractError('_number_to_X: the final split-at-"e" statement changed')
+    defaults = {True: set(), False: set()}
+    for unit_one in (True, False):
+        mag = 'number' if unit_one else 'to_unitless(number, %s)' % UNIT
+        unit_str = '""' if unit_one else '(space + unit_fmt(%s))' % UNIT
+        for unc_none in (True, False):
+            unc = U0 if unit_one else 'to_unitless(%s, %s)' % (U0, UNIT)
+            for fmt_none in (True, False):
+                prec = '_P_prec' if fmt_none else 'fmt'
+                flt = '(("%%%%.%%dg" %% %s) %% %s)' % (prec, mag) if unc_none else '_float_str_w_uncert(%s, %s, %s)' % (mag, unc, prec)
+                for has_e in (True, False):
+                    want = ('fmt_pow_10(%s.split("e")[0], %s.split("e")[1]) + %s' % (flt, flt, unit_str)) if has_e else '%s + %s' % (flt, unit_str)
+                    b = _match(want, scenario(unit_one, unc_none, fmt_none, has_e),
+                               '_number_to_X [unit is 1: %s, uncertainty None: %s, fmt None: %s, "e" in text: %s]' % (unit_one, unc_none, fmt_none, has_e))
+                    if fmt_none:
+                        defaults[unc_none].add(_int_const(b['_P_prec'], '_number_to_X default fmt'))
+    if len(defaults[True]) != 1 or len(defaults[False]) != 1:
+        raise ExtractError('_number_to_X: default fmt differs between paths: %r' % defaults)
     out.append('/-- `_number_to_X`: `fmt = N` defaults (without / with uncertainty), separator before the unit -/')
-    out.append('def defaultPrecision : Nat := %d' % p_plain)
-    out.append('def defaultUncertPrecision : Nat := %d' % p_unc)
+    out.append('def defaultPrecision : Nat := %d' % defaults[True].pop())
+    out.append('def defaultUncertPrecision : Nat := %d' % defaults[False].pop())
     out.append('def defaultSpace : List Char := %s' % lean_chars(space))
 
-    def x_call(name):
-        g = find_def(tree, name)
-        rets = [n for n in ast.walk(g) if isinstance(n, ast.Return)]
-        if len(rets) != 1 or not (isinstance(rets[0].value, ast.Call) and _is_name(rets[0].value.func, '_number_to_X')):
+    def x_call(name, want_unit_fmt, want_pow):
+        g, gt = _tree_of(tree, name, ['number', 'uncertainty', 'unit', 'fmt'])
+        if gt[0] != 'ret':
             raise ExtractError('%s: no longer a single call of _number_to_X' % name)
-        c = rets[0].value
-        if c.keywords or [seg(src, a) for a in c.args[:4]] != ['number', 'uncertainty', 'unit', 'fmt']:
-            raise ExtractError('%s: arguments of _number_to_X changed' % name)
-        return [seg(src, a) for a in c.args[4:6]], (c.args[6] if len(c.args) > 6 else None)
+        for tmpl in ('_number_to_X(number, uncertainty, unit, fmt, %s, %s, _P_space)' % (want_unit_fmt, want_pow),
+                     '_number_to_X(number, uncertainty, unit, fmt, %s, %s)' % (want_unit_fmt, want_pow)):
+            binds = {}
+            if _unify(ast.parse(tmpl, mode='eval').body, gt[1], binds):
+                return binds.get('_P_space')
+        raise ExtractError('%s: is no longer _number_to_X(number, uncertainty, unit, fmt, %s, %s[, space])' % (name, want_unit_fmt, want_pow))
 
-    (ufmt, pfmt), sp = x_call('number_to_scientific_latex')
-    if (ufmt, pfmt) != ('latex_of_unit', '_latex_pow_10') or sp is None:
-        raise ExtractError('number_to_scientific_latex: renderer arguments changed')
+    sp = x_call('number_to_scientific_latex', 'latex_of_unit', '_latex_pow_10')
+    if sp is None:
+        raise ExtractError('number_to_scientific_latex: no space argument')
     out.append('def latexSpace : List Char := %s' % lean_chars(_const_str(sp, 'latex space')))
-    (ufmt, pfmt), sp = x_call('number_to_scientific_unicode')
-    if (ufmt, pfmt) != ('unicode_of_unit', '_unicode_pow_10') or sp is not None:
-        raise ExtractError('number_to_scientific_unicode: renderer arguments changed')
-    (ufmt, pfmt), sp = x_call('number_to_scientific_html')
-    if (ufmt, pfmt) != ('html_of_unit', '_html_pow_10') or sp is not None:
-        raise ExtractError('number_to_scientific_html: renderer arguments changed')
+    if x_call('number_to_scientific_unicode', 'unicode_of_unit', '_unicode_pow_10') is not None \
+            or x_call('number_to_scientific_html', 'html_of_unit', '_html_pow_10') is not None:
+        raise ExtractError('number_to_scientific_unicode/html: unexpected space argument')
     out.append('')
 
     # ---- _unicode_sup of util/parsing.py ----------------------------------------------
